@@ -121,7 +121,7 @@ pub fn drive(args: &HashMap<String, String>) {
         cs.push(Case { expr: pc.body.render(), defs, envs: vec![V::nil()], open: false, p: pc });
     }
     let cfg = PoolCfg { batch: 1, timeout: Duration::from_secs(20), ..PoolCfg::default() };
-    let rjobs: Vec<Value> = cs.iter().map(|c| json!({"op": "repl", "defs": c.defs, "expr": c.expr})).collect();
+    let rjobs: Vec<Value> = cs.iter().map(|c| json!({"op": "repl", "defs": c.defs, "expr": c.expr, "events": true})).collect();
     let rres = run_jobs(rjobs, &cfg);
     let mut cjobs = vec![];
     for (c, r) in cs.iter().zip(rres.iter()) {
@@ -133,6 +133,19 @@ pub fn drive(args: &HashMap<String, String>) {
         cjobs.push(json!({"op": "modrun", "text": rp, "envs": envs}));
     }
     let cres = run_jobs(cjobs, &cfg);
+    // evaluator scope events of every session (Trace_ComScope)
+    if let Some(st) = args.get("scope-trace") {
+        let mut sf = std::io::BufWriter::new(std::fs::File::create(st).expect("scope trace"));
+        for (c, r) in cs.iter().zip(rres.iter()) {
+            if let Some(rec) = crate::util::scope_record(&c.p.var_names(), r) {
+                let mut rec = rec;
+                rec["open"] = json!(c.open);
+                rec["expr"] = json!(c.expr);
+                rec["defs"] = json!(c.defs);
+                writeln!(sf, "{}", rec).unwrap();
+            }
+        }
+    }
     let mut rep = Report::default();
     let mut tf = std::io::BufWriter::new(std::fs::File::create(trace).expect("trace"));
     let mut cf = std::io::BufWriter::new(std::fs::File::create(cases).expect("cases"));
